@@ -31,7 +31,9 @@ import (
 //                           of ewkb.Scanner(dest).Scan, re-encoding stability of a returned value
 //   wkbnest <kind> <k>   => ok | err <class> | crash <what> | timeout
 //                           k one-member multi (kind mls, mpoly) / collection (kind coll) headers around an
-//                           empty member, decoded in a CHILD process (a Go stack overflow is fatal, not a panic)
+//                           empty member, decoded in a CHILD process (a Go stack overflow is fatal, not a panic);
+//                           nestings up to a little beyond wkbcommon.MaxCollectionDepth also travel as `wkb`
+//                           cases, where outcome and allocation are compared with the model
 //   wkt / mvt / gj       the hostile streams of C04 / C03 / C02, run by their runners under a watchdog
 //
 // Quick tier: the budget is apportioned per stream and per sub-family, in this order: witnesses of past
@@ -361,13 +363,39 @@ func c05Gzip(b []byte) []byte {
 }
 
 // c05NestedMulti: the input family `Orb.WKB.nestedMultiInput` (a multi claiming k+1 members, k nested
-// one-member multi headers, an empty member): quadratic in the byte-slice decoder.
+// one-member multi headers, an empty member): it used to be decoded, in quadratic time and allocation,
+// by the byte-slice decoder (fixed: a member must be of the plain type; ErrIncorrectGeometry for k >= 1).
 func c05NestedMulti(typ, leaf byte, k int) []byte {
 	b := append([]byte{1, typ, 0, 0, 0}, u32b(binary.LittleEndian, uint32(k+1))...)
 	for i := 0; i < k; i++ {
 		b = append(b, 1, typ, 0, 0, 0, 1, 0, 0, 0)
 	}
 	return append(b, 1, leaf, 0, 0, 0, 0, 0, 0, 0)
+}
+
+// c05NestedColl: k nested one-member collections around LINESTRING EMPTY; wide: every collection but the
+// innermost claims a second member, a point that follows the nested collection.
+func c05NestedColl(k int, wide bool, o binary.ByteOrder) []byte {
+	ob := byte(1)
+	if o == binary.BigEndian {
+		ob = 0
+	}
+	var b []byte
+	for i := 0; i < k; i++ {
+		n := uint32(1)
+		if wide && i < k-1 {
+			n = 2
+		}
+		b = append(append(append(b, ob), u32b(o, 7)...), u32b(o, n)...)
+	}
+	b = append(append(append(b, ob), u32b(o, 2)...), u32b(o, 0)...)
+	if wide {
+		for i := 0; i < k-1; i++ {
+			b = append(append(b, ob), u32b(o, 1)...)
+			b = append(b, 0, 0, 0, 0, 0, 0, 0xf0, 0x3f, 0, 0, 0, 0, 0, 0, 0, 0x40)
+		}
+	}
+	return b
 }
 
 type c05Case struct{ op, in string }
@@ -420,7 +448,8 @@ func c05Witnesses(thorough bool) []c05Case {
 		add("wkt", wktHostileInput(s))
 	}
 	// WKB: 7525976 (num*16 wrapped in uint32), 0de7204 (bad byte-order mark in the stream decoder),
-	// every cap at once in the stream decoder, the nested-multi family (recorded finding)
+	// every cap at once in the stream decoder, the nested-multi family (members of a multi are of the plain
+	// type only: it used to decode in quadratic time; k = 8000 is the former 2.8 s / 769 MB witness)
 	for _, b := range [][]byte{
 		{1, 2, 0, 0, 0, 0, 0, 0, 0x10, 1, 2, 3},
 		{0, 0, 0, 0, 2, 0x10, 0, 0, 0, 1, 2, 3},
@@ -438,10 +467,33 @@ func c05Witnesses(thorough bool) []c05Case {
 	}
 	add("wkb", hx(c05NestedMulti(5, 2, 400))+" LS")
 	add("wkb", hx(c05NestedMulti(4, 1, 400))+" MP")
+	add("wkb", hx(c05NestedMulti(5, 2, 8000))+" any")
+	add("wkb", hx(c05NestedMulti(6, 3, 8000))+" PG")
 	if thorough {
 		add("wkb", hx(c05NestedMulti(5, 2, 1000))+" MLS")
+		add("wkb", hx(c05NestedMulti(5, 2, 100000))+" any")
 	}
-	// nesting depth: fine at 100000 levels, a fatal stack overflow at 4 million (36 MB of input)
+	// nested collections around wkbcommon.MaxCollectionDepth (10000): decoded up to it, ErrNestingTooDeep
+	// beyond, in both decoders and every scanner; outcome, allocation and recursion depth against the model
+	for i, k := range []int{1, 2, 100, 101, 9999, 10000, 10001} {
+		var o binary.ByteOrder = binary.LittleEndian
+		if i%2 == 1 {
+			o = binary.BigEndian
+		}
+		add("wkb", hx(c05NestedColl(k, false, o))+" "+[]string{"any", "C"}[i%2])
+		add("wkb", hx(c05NestedColl(k, true, o))+" "+[]string{"C", "any"}[i%2])
+	}
+	if thorough {
+		add("wkb", hx(c05NestedColl(10002, true, binary.LittleEndian))+" B")
+		add("wkb", hx(c05NestedColl(50000, false, binary.LittleEndian))+" any")
+	}
+	// nesting depth far beyond: a clean error at once (it was fine at 100000 levels and a fatal stack
+	// overflow at 4 million, 36 MB of input); decoded in a child process
+	add("wkbnest", "mls 1")
+	add("wkbnest", "mls 2")
+	add("wkbnest", "mpoly 2")
+	add("wkbnest", "coll 10000")
+	add("wkbnest", "coll 10001")
 	add("wkbnest", "mls 100000")
 	add("wkbnest", "coll 100000")
 	add("wkbnest", "mls 4000000")
@@ -449,6 +501,7 @@ func c05Witnesses(thorough bool) []c05Case {
 	if thorough {
 		add("wkbnest", "mpoly 100000")
 		add("wkbnest", "mpoly 4000000")
+		add("wkbnest", "coll 20000000")
 	}
 	return w
 }
@@ -574,7 +627,8 @@ func genC05WKB(c *Ctx, thorough bool) {
 	}
 	// the member types a container of type t is given: the well-typed one (Point in MultiPoint, LineString
 	// in MultiLineString, Polygon in MultiPolygon; each of 1..7 in a collection), the container's own type
-	// (a nested one-member multi is accepted by the Scan* functions) and for the plain types the type itself
+	// (a nested one-member multi: accepted by the Scan* functions at the top, not as a member) and for the
+	// plain types the type itself
 	members := func(t uint32) []uint32 {
 		switch t & 0xf {
 		case 4, 5, 6:
@@ -678,7 +732,7 @@ func genC05WKB(c *Ctx, thorough bool) {
 				m = h
 			case 6: // 4-byte prefix
 				m = append(u32b(binary.LittleEndian, r.Uint32()), m...)
-			case 7: // a chain of nested one-member multi headers in front (quadratic when it has siblings)
+			case 7: // a chain of nested one-member multi / collection headers in front
 				t := []uint32{4, 5, 6, 7}[r.Intn(4)]
 				var hdr []byte
 				for d := 1 + r.Intn(6); d > 0; d-- {
